@@ -18,10 +18,11 @@ func labOracle(prop string, res *lab.Result, m *lab.Model, h *lab.History) []lab
 	case "C05":
 		return h.CheckC05()
 	case "C11":
-		if res.Case.HasHold() {
-			return nil
+		vs := h.CheckC11Control(res)
+		if !res.Case.HasHold() {
+			vs = append(vs, lab.CheckWedge(res)...)
 		}
-		return lab.CheckWedge(res)
+		return vs
 	}
 	if f, ok := extraLabOracles[prop]; ok {
 		return f(res, m, h)
